@@ -121,6 +121,18 @@ func genRequests(rng *cq.Rng, n int) []httpReq {
 	return out
 }
 
+// withTimeout runs f; false when it has not returned after d (f keeps running in its goroutine).
+func withTimeout(d time.Duration, f func()) bool {
+	done := make(chan struct{})
+	go func() { f(); close(done) }()
+	select {
+	case <-done:
+		return true
+	case <-time.After(d):
+		return false
+	}
+}
+
 func httpCmd(out *cq.Out, seed uint64, tier string) {
 	rng := cq.NewRng(seed)
 	nreq := 1500
@@ -136,8 +148,6 @@ func httpCmd(out *cq.Out, seed uint64, tier string) {
 	}
 	api := httptest.NewServer(apihttp.NewApiHttp(n))
 	mgmt := httptest.NewServer(mgmthttp.NewMgmtHttp(n))
-	defer api.Close()
-	defer mgmt.Close()
 	hc := &http.Client{Timeout: 20 * time.Second, CheckRedirect: func(*http.Request, []*http.Request) error { return http.ErrUseLastResponse }}
 	do := func(r httpReq) (int, string, error) {
 		base := api.URL
@@ -191,15 +201,26 @@ func httpCmd(out *cq.Out, seed uint64, tier string) {
 	}
 	reqs := genRequests(rng, nreq)
 	var acases []string
+	wedged := false
 	for i, r := range reqs {
 		desc := map[string]interface{}{"seed": seed, "request_index": i, "mux": r.mux, "method": r.method, "path": r.path, "body": r.body}
 		if len(r.body) > 300 {
 			desc["body"] = r.body[:300] + fmt.Sprintf("...(%d bytes)", len(r.body))
 		}
 		out.Note(desc)
-		before := n.VBalloonVersion()
-		st, _, err := do(r)
-		acases = append(acases, fmt.Sprintf("(%s, %d%%nat)", r.model, n.VBalloonVersion()-before))
+		var before, after uint64
+		var st int
+		var err error
+		if !withTimeout(45*time.Second, func() {
+			before = n.VBalloonVersion()
+			st, _, err = do(r)
+			after = n.VBalloonVersion()
+		}) {
+			out.Violate("C11:server-wedged-or-wrong-after-request", fmt.Sprintf("the node stopped responding (its state is locked) while or after handling %s %s (%.60q)", r.method, r.path, r.body), desc)
+			wedged = true
+			break
+		}
+		acases = append(acases, fmt.Sprintf("(%s, %d%%nat)", r.model, after-before))
 		out.Case(fmt.Sprintf("req:%d", i), r.body != "")
 		cls := fmt.Sprintf("%dxx", st/100)
 		if err != nil {
@@ -213,14 +234,31 @@ func httpCmd(out *cq.Out, seed uint64, tier string) {
 		if i%10 == 9 || err != nil {
 			if why := followUp(); why != "" {
 				out.Violate("C11:server-wedged-or-wrong-after-request", fmt.Sprintf("after %s %s (%.60q): %s", r.method, r.path, r.body, why), desc)
+				wedged = true
 				break
 			}
 		}
 	}
+	writeCases := func() {
+		f, _ := os.Create(out.Dir + "/cases.v")
+		fmt.Fprintf(f, "From Coq Require Import List NArith.\nFrom QV Require Import Fsm.Api.\nImport ListNotations.\nOpen Scope N_scope.\n")
+		fmt.Fprintf(f, "Definition cases : list (request N * nat) := %s.\n", cq.List(acases))
+		fmt.Fprintf(f, "Definition R := Eval vm_compute in run_api_cases cases.\nPrint R.\n")
+		f.Close()
+	}
+	if wedged {
+		// a wedged node cannot be closed cleanly either: report and leave
+		writeCases()
+		return
+	}
 	if why := followUp(); why != "" {
 		out.Violate("C11:server-wedged-or-wrong-after-request", "at the end of the request stream: "+why, map[string]interface{}{"seed": seed})
+		writeCases()
+		return
 	}
 	// replay after restart: everything that was replicated must apply again
+	api.Close()
+	mgmt.Close()
 	n.Close(true)
 	n2, _, err := startNode(nodeOpts{id: 0, name: "h", dir: dir, raftPort: port, bootstrap: false, snapThr: 8192, trailing: 10240})
 	if err != nil {
@@ -230,10 +268,6 @@ func httpCmd(out *cq.Out, seed uint64, tier string) {
 		n2.VRaft().Barrier(10 * time.Second).Error()
 		n2.Close(true)
 	}
-	f, _ := os.Create(out.Dir + "/cases.v")
-	fmt.Fprintf(f, "From Coq Require Import List NArith.\nFrom QV Require Import Fsm.Api.\nImport ListNotations.\nOpen Scope N_scope.\n")
-	fmt.Fprintf(f, "Definition cases : list (request N * nat) := %s.\n", cq.List(acases))
-	fmt.Fprintf(f, "Definition R := Eval vm_compute in run_api_cases cases.\nPrint R.\n")
-	f.Close()
+	writeCases()
 	out.Sample(map[string]interface{}{"requests": nreq, "first": fmt.Sprintf("%v", reqs[0])})
 }
